@@ -184,7 +184,7 @@ def run(tier, seed):
     if tier == "thorough" and not os.environ.get("VERIF_OVERLAY"):
         import sanitize
         sanitize.overlay(rep, "asan", timeout=5400)
-        sanitize.miri(rep, [["values", seed, 0]], timeout=3000)
+        sanitize.miri(rep, [["values", seed, 0]], timeout=3000, sig_prefix="value:")
     return rep.finish()
 
 
